@@ -338,6 +338,10 @@ def judge(scn, lay, impl, spec, model):
     disagreements: model vs implementation / model vs CPython differences that are not spec failures."""
     fails, diffs = [], []
     ic, sc = impl["construct"], spec["construct"]
+
+    def nm(ids):
+        return [f"{lay.slots[i][0]}.{lay.slots[i][1]}" for i in ids]
+
     if sc == "ok":
         if ic != "ok":
             fails.append(f"construction raised {ic} for well-formed guards with all names provided")
@@ -357,7 +361,8 @@ def judge(scn, lay, impl, spec, model):
             elif io != so:
                 fails.append(f"event {i}: {io} but Python's evaluation says {so} (rho={scn['rounds'][i]})")
             if not is_subsequence(sr, ir) or not set(ir) <= set(sr):
-                fails.append(f"event {i}: reads {ir} are not Python's reads {sr} (left to right, short-circuit)")
+                fails.append(f"event {i}: reads {nm(ir)} are not Python's reads {nm(sr)} (left to right, short-circuit; "
+                             f"rho={scn['rounds'][i]})")
     if model is not None:
         mc = model["construct"]
         if sc in ("ok", "InvalidDefinition") and mc != sc:
@@ -370,7 +375,7 @@ def judge(scn, lay, impl, spec, model):
                 if mo != io:
                     diffs.append(f"event {i}: model {mo} vs implementation {io}")
                 if mlib != ir:
-                    diffs.append(f"event {i}: model reads {mlib} vs implementation reads {ir}")
+                    diffs.append(f"event {i}: model reads {nm(mlib)} vs implementation reads {nm(ir)}")
                 if mspec != so or mpy != sr:
                     diffs.append(f"event {i}: Lean spec side ({mspec},{mpy}) vs CPython ({so},{sr})")
                 if mfirst != mpy or mo != mspec:
